@@ -262,6 +262,13 @@ func Send[T any](ch chan<- T, v T) {
 }
 
 // Recv2 replaces `v, ok := <-ch` (and range over a channel).
+// RecvFirst starts a rewritten `for v := range ch`: first element, whether there was one,
+// and the channel (evaluated once) for the following Recv2 calls.
+func RecvFirst[T any](ch <-chan T) (v T, ok bool, c <-chan T) {
+	v, ok = Recv2(ch)
+	return v, ok, ch
+}
+
 func Recv2[T any](ch <-chan T) (v T, ok bool) {
 	if !isActive() {
 		v, ok = <-ch
@@ -309,6 +316,22 @@ type SelCase struct {
 func RecvCase[T any](ch <-chan T) SelCase {
 	return SelCase{dir: dirRecv, ch: reflect.ValueOf(ch), key: *(*unsafe.Pointer)(unsafe.Pointer(&ch))}
 }
+
+// SendTo(ch).V(v) replaces `ch <- v`: the element type is fixed by the channel alone, so
+// the value is passed under ordinary assignability (`errc <- &MyErr{}` on a chan error,
+// an int sent on a chan any), and channel and value are still evaluated in that order.
+type Sender[T any] struct{ ch chan<- T }
+
+func SendTo[T any](ch chan<- T) Sender[T] { return Sender[T]{ch} }
+
+func (s Sender[T]) V(v T) { Send(s.ch, v) }
+
+// SendCaseTo(ch).V(v): the same for a send case of a select.
+type CaseSender[T any] struct{ ch chan<- T }
+
+func SendCaseTo[T any](ch chan<- T) CaseSender[T] { return CaseSender[T]{ch} }
+
+func (s CaseSender[T]) V(v T) SelCase { return SendCase(s.ch, v) }
 
 func SendCase[T any](ch chan<- T, v T) SelCase {
 	return SelCase{dir: dirSend, ch: reflect.ValueOf(ch), val: reflect.ValueOf(&v).Elem(), key: *(*unsafe.Pointer)(unsafe.Pointer(&ch))}
